@@ -70,7 +70,7 @@ PROPS = {
     'C02': {
         'level': 'proof',
         'verus': [{'group': 'shard_core'}, _sg('shard_strings'), _sg('shard_lists'), _sg('shard_sweeper'), _sg('shard_sets'), _sg('shard_hashes'), _sg('shard_zsets'), {'group': 'shard_flush', 'exclude_units': SHARD_VALUE_UNITS},
-                  {'group': 'exec_strings', 'units': ['exec_set']}, {'group': 'exec_keys', 'units': ['exec_ttl', 'exec_renamenx']},
+                  {'group': 'exec_strings', 'units': ['exec_set']}, {'group': 'exec_keys', 'units': ['exec_ttl', 'exec_renamenx', 'exec_expire']},
                   {'group': 'srv_strings', 'units': ['handle_ttl', 'handle_expire', 'handle_setex', 'handle_psetex', 'handle_set', 'handle_setnx', 'handle_renamenx']}],
         'explanation': 'deadline-index invariant index_ok preserved by every shard operation under contract; lazy expiry of get/exists/set_nx; ttl arithmetic',
     },
